@@ -177,7 +177,8 @@ def gen_special(rng, k):
     bypp = bpp // 8
     W, H = rng.choice([1, 8, 16, 17, 40, 65]), rng.choice([1, 8, 16, 17, 40])
     which = rng.choice(["ultrazip", "ultrazip", "tight_rows", "tight_nozlib", "tight_pal", "tight_wide", "trle_rle", "zrle_short",
-                        "zrle_types", "corre_count", "rre_count", "hextile_sub", "resize", "cursor", "lengths", "raw_big", "copy_oob"])
+                        "zrle_types", "corre_count", "rre_count", "hextile_sub", "resize", "cursor", "lengths", "raw_big", "copy_oob",
+                        "cursor_trunc", "cursor_trunc", "trunc_large", "trunc_large"])
     L = ["case %d special:%s %s %dx%d" % (k, which, fmtname, W, H)]
     tags = ["special." + which]
     rb = lambda n: "".join("%02x" % rng.getrandbits(8) for _ in range(n))
@@ -297,6 +298,44 @@ def gen_special(rng, k):
         cw, ch = rng.choice([(0, 0), (1, 1), (1023, 1), (1024, 1), (1, 1024), (65535, 65535), (17, 3), (1023, 1023)])
         enc = rng.choice([0xffffff10, 0xffffff11])
         L += ["b 00000001", "b " + hdr(1, 2, cw, ch, enc) + rb(rng.choice([0, 6, 50, 5000]))]
+    elif which == "cursor_trunc":
+        # a complete cursor update, then a second one (or a third) cut at an arbitrary point: the stream ends inside
+        # the payload, HandleRFBServerMessage fails and the harness calls rfbClientCleanup (dangling pointers, double free)
+        def cur(cw, ch, rich):
+            bpr = (cw + 7) // 8
+            if rich:
+                return hdr(1, 1, cw, ch, 0xffffff11) + rb(cw * ch * bypp) + rb(bpr * ch)
+            return hdr(1, 1, cw, ch, 0xffffff10) + rb(6) + rb(bpr * ch) + rb(bpr * ch)
+        full = [cur(rng.choice([1, 7, 16, 33]), rng.choice([1, 5, 16]), rng.random() < 0.5) for _ in range(rng.choice([1, 1, 2]))]
+        last = cur(rng.choice([1, 8, 17, 64]), rng.choice([1, 4, 32]), rng.random() < 0.5)
+        cut = rng.randrange(24, len(last) + 1, 2)
+        for c in full:
+            L += ["b 00000001", "b " + c]
+        L += ["b 00000001", "b " + last[:cut]]
+    elif which == "trunc_large":
+        # the stream ends in the middle of a payload that is read with one large (> 8 KiB) request
+        m = rng.choice(["cut", "chat", "raw", "ident", "zlib", "name"])
+        n = rng.choice([8193, 9000, 20000, 70000, 300000])
+        got = rng.choice([0, 1, 100, 8191, 8192, 8193, n - 8193, n - 1])
+        got = max(0, min(got, n - 1))
+        if m == "cut":
+            L += ["b 03000000" + be32(n) + rb(got)]
+        elif m == "chat":
+            L += ["b 0b000000" + be32(n) + rb(got)]
+        elif m == "ident":
+            n = min(n, 65535); got = min(got, n - 1)
+            L += ["b 00000001", "b " + hdr(0, 0, n, 0, rng.choice([0xfffe0003, 0xfffe0002])) + rb(got)]
+        elif m == "raw":
+            # a resize makes room for a rectangle whose rows exceed 8 KiB in total
+            nw, nh = 600, 40
+            L += ["b 00000001", "b " + hdr(0, 0, nw, nh, 0xffffff21), "b 00000001",
+                  "b " + hdr(0, 0, nw, nh, 0) + rb(min(got, nw * nh * bypp - 1))]
+        elif m == "zlib":
+            nw, nh = 200, 100
+            L += ["b 00000001", "b " + hdr(0, 0, nw, nh, 0xffffff21), "b 00000001",
+                  "b " + hdr(0, 0, nw, nh, rng.choice([6, 16, 9])) + be32(n) + rb(got)]
+        else:
+            L += ["b " + rb(0)]
     elif which == "lengths":
         m = rng.choice(["cut", "chat", "ident", "suppenc"])
         n = rng.choice([0, 1, 0x100000, 0x100001, 0x7fffffff, 0x80000000, 0xffffffff, 0xfff00000, 10485760, 10485761])
@@ -463,7 +502,7 @@ def probe_fixes(cexe, mexe):
     return mask
 
 
-def run_all(cexe, mexe, cases, limit=20):
+def run_all(cexe, mexe, cases, limit=6):
     script = "\n".join("\n".join(c["tok"]) for c in cases) + "\n"
     rc1, cout, cerr = vlib.run_driver([cexe, str(limit)], script, timeout=3000)
     mcases = [c for c in cases if c["kind"] != "implonly"]
